@@ -72,8 +72,12 @@ def _first_char_of_delimiter(b, n):
 def aud_key(site):
     """Site signatures are compared modulo binding mode: unary `*`, `&`, `&mut` are dropped (`removed_pos[*pair_idx]` and
     `removed_pos[pair_idx]` are the same operation on the same value)."""
-    s = re.sub(r"(?<![\w)\]])\*(?=[\w(])", "", site)       # unary `*x` (a product is rendered `a * b`, with a space after the star)
+    s = re.sub(r"\.expect\('(?:[^'\\]|\\.)*'\)", ".unwrap()", site)      # `expect("why")` is `unwrap()` with a message
+    s = re.sub(r"(?<![\w)\]])\*(?=[\w(])", "", s)       # unary `*x` (a product is rendered `a * b`, with a space after the star)
     s = re.sub(r"(?<![\w)\]&])&(?:mut )?(?=[\w(*])", "", s)
+    # a Range value: `r.clone()` and `r.start..r.end` are `r`
+    s = re.sub(r"\b(\w+)\.start\.\.\1\.end\b", r"\1", s)
+    s = re.sub(r"\b(\w+)\.clone\(\)", r"\1", s)
     return s
 
 
@@ -483,7 +487,10 @@ def _verify_count(b, s):
     tail = T.peel(b["tree"])
     while tail.get("k") in ("blockexpr", "block"):
         blk_ = tail["block"] if tail["k"] == "blockexpr" else tail
-        if blk_["stmts"] or blk_.get("tail") is None:
+        # statements without effect (a literal bound to a name - an inlined helper's parameter -, a unit expression) may precede
+        inert = all((st.get("k") == "let" and st.get("init") is not None and T.peel(st["init"]).get("k") == "lit" and st["pat"].get("p") == "bind")
+                    or (st.get("k") == "expr" and T.peel(st["e"]).get("k") == "tuple" and not T.peel(st["e"]).get("es")) for st in blk_["stmts"])
+        if not inert or blk_.get("tail") is None:
             break
         tail = T.peel(blk_["tail"])
     if tail.get("k") == "mcall" and tail["name"] == "count":
@@ -537,6 +544,9 @@ def mir_crosscheck(res, b, fn, obs):
     unmatched = []
     for a in asserts:
         sp = a.get("sp")
+        # panic checks inside a `debug_assert!` belong to the debug configuration only (the analysed one is release)
+        if sp and any(s_[0] == sp[0] and (s_[1], s_[2]) <= (sp[1], sp[2]) <= (s_[3], s_[4]) for s_ in b.get("stripped_spans", [])):
+            continue
         if not sp or a.get("exp"):
             continue
         if (sp[1], sp[2]) not in pos:
